@@ -21,6 +21,7 @@ def configs(tier):
             for h in (1, 3, (2, 6, 0, 5, 2)[i]): add(sp, h)
         add(spec('localp', 'localp', 2, 1, 1, order=1), 4); add(spec('global', 'gauss-legendre', 2, 1, 2), 1); add(spec('localp', 'localp', 2, 0, 2, order=1), 0); add(spec('global', 'leja', 2, 1, 2), 5); add(spec('global', 'gauss-jacobi', 2, 1, 2, alpha=0.5, beta=1.5), 1); add(spec('global', 'gauss-hermite', 1, 1, 3, alpha=2.0), 1); add(spec('global', 'gauss-gegenbauer', 2, 2, 1, alpha=1.5), 2)
         add(spec('localp', 'semi-localp', 2, 1, 2, order=2), 1, 0); add(spec('sequence', 'leja', 2, 1, 2), 3, 0)
+        for r in ('localp-boundary', 'localp-zero', 'semi-localp'): add(spec('localp', r, 2, 1, 2, order=2 if r == 'semi-localp' else 1), 1)   # every local rule through the binary rule code
         add(spec('global', 'clenshaw-curtis', 2, 1, 2), 7); add(spec('sequence', 'rleja', 2, 1, 2), 7); add(spec('fourier', 'fourier', 2, 1, 1), 7); add(spec('localp', 'localp', 2, 1, 2, order=1), 7)
     else:
         fams += [spec('localp', r, 2, 2, 2, order=o, transform=(o % 2)) for r in LOCAL_RULES for o in (-1, 0, 1, 2, 3) if not (o == 0 and r != 'localp')]
